@@ -279,7 +279,7 @@ func evaluateNotPresent(ptr pointerstructure.Pointer, datum interface{}) bool {
 	ptr.Parts = ptr.Parts[0 : len(ptr.Parts)-1]
 
 	val, _ := ptr.Get(datum)
-	return reflect.ValueOf(val).Kind() == reflect.Map
+	return derefValue(reflect.ValueOf(val)).Kind() == reflect.Map
 }
 
 // getValue resolves path to the value it references by first looking into the
